@@ -382,3 +382,43 @@ Proof.
   - repeat split; try reflexivity.
     cbn. repeat constructor; cbn; intuition discriminate.
 Qed.
+
+(* ------------------------------------------- registered validators (end to end) -- *)
+(* today's code: a value parse accepts is rejected by the registered validator *)
+Theorem valid_registered_refuted :
+  exists sc v x, wf_gv v = true /\ parse_scalar sc v = Ok x /\ valid_registered sc v = false /\
+                 known_e2e sc v = 4%N /\ is_err (e2e_model sc (Some v)) = true /\
+                 spec_parse_ok sc v (Ok x) = true.
+Proof.
+  exists (SInt 8%N), (GInt 9223372036854775808), (RI 9223372036854775808).
+  repeat split; vm_compute; reflexivity.
+Qed.
+
+(* outside that class: whatever parse accepts, the registered validator lets through *)
+Theorem valid_registered_of_parse sc v x :
+  wf_gv v = true -> parse_scalar sc v = Ok x -> known_e2e sc v <> 4%N ->
+  valid_registered sc v = true.
+Proof.
+  intros W P K.
+  destruct sc as [id| | | | | | | | |items]; cbn [parse_scalar] in P.
+  - destruct (assoc id int_impls_gen) as [im|] eqn:A; [|discriminate P].
+    destruct (parse_int im v) as [z| | |] eqn:PI; try discriminate P.
+    apply (int_exact _ _ _ _ A W) in PI. destruct PI as [-> [[Hlo Hhi] _]].
+    cbn [valid_registered]. unfold as_i64.
+    destruct (Z.ltb_spec z 0); [reflexivity|].
+    destruct (Z.leb_spec z i64_max); [reflexivity|]. exfalso.
+    cbn [known_e2e] in K. unfold row_ty in K. rewrite A in K.
+    apply Z.ltb_lt in H0. 
+    destruct (ii_prim im); cbn [ity_max ity_signed ity_half ity_mod] in Hhi; unfold i64_max in *;
+      try (apply Z.ltb_lt in H0; lia); rewrite H0 in K; apply K; reflexivity.
+  - destruct v; try discriminate P; reflexivity.
+  - destruct v; try discriminate P; reflexivity.
+  - destruct v; try discriminate P; reflexivity.
+  - destruct v; try discriminate P; reflexivity.
+  - destruct v; try discriminate P; reflexivity.
+  - destruct v; try discriminate P; reflexivity.
+  - destruct v; try discriminate P; reflexivity.
+  - destruct v; try discriminate P; reflexivity.
+  - destruct v; try discriminate P; cbn [parse_enum lift bindo] in P; cbn [valid_registered];
+      destruct (find_name s items); try discriminate P; reflexivity.
+Qed.
